@@ -17,7 +17,7 @@ TraceLog == ndJsonDeserialize(IOEnv.VERIF_TRACE)
 VARIABLES l
 tvars == <<allvars, l>>
 
-EmptyCfg == MkCfg(0, <<>>, TRUE, TRUE, TRUE, -1)
+EmptyCfg == MkCfg(0, <<>>, TRUE, TRUE, TRUE, -1, "ok")
 
 TraceInit ==
   /\ l = 1
